@@ -7,20 +7,21 @@ Import ListNotations.
 Open Scope Z_scope.
 
 Record outcome := mk_outcome {
-  o_st : Z; o_keys : bool; o_ok : bool; o_next : option Z; o_reset : bool; o_body : Z }.
-Record rinner := mk_rinner { r_st : Z; r_keys : bool; r_script : list outcome }.
+  o_st : Z; o_keys : bool; o_peer : Z; o_ok : bool; o_next : option Z; o_reset : bool; o_body : Z }.
+Record rinner := mk_rinner { r_st : Z; r_keys : bool; r_peer : Z; r_script : list outcome }.
 
 Definition pop (i : rinner) : rinner * outcome :=
   match r_script i with
-  | o :: r => (mk_rinner (o_st o) (o_keys o) r, o)
-  | [] => (i, mk_outcome (r_st i) (r_keys i) false None false (-1))
+  | o :: r => (mk_rinner (o_st o) (o_keys o) (o_peer o) r, o)
+  | [] => (i, mk_outcome (r_st i) (r_keys i) (r_peer i) false None false (-1))
   end.
 
 Definition RP : iface := {|
   I := rinner; B := Z; EV := bool;
   istate := r_st;
-  set_state := fun i z => mk_rinner z (r_keys i) (r_script i);
+  set_state := fun i z => mk_rinner z (r_keys i) (r_peer i) (r_script i);
   has_keys := r_keys;
+  ipeer_spi := r_peer;
   handle_request := fun i _ => let '(i', o) := pop i in (i', if o_ok o then HOk (o_body o) else HErr (o_body o));
   handle_response := fun i _ =>
     let '(i', o) := pop i in
@@ -53,8 +54,8 @@ Definition sx_of_dgram (d : option (dgram Z)) : sx :=
 
 Definition outcome_of_sx (x : sx) : option outcome :=
   match x with
-  | SxL [SxZ st; SxZ k; SxZ ok; SxZ hasnext; SxZ nx; SxZ reset; SxZ body] =>
-      Some (mk_outcome st (Z.eqb k 1) (Z.eqb ok 1) (if Z.eqb hasnext 1 then Some nx else None) (Z.eqb reset 1) body)
+  | SxL [SxZ st; SxZ k; SxZ peer; SxZ ok; SxZ hasnext; SxZ nx; SxZ reset; SxZ body] =>
+      Some (mk_outcome st (Z.eqb k 1) peer (Z.eqb ok 1) (if Z.eqb hasnext 1 then Some nx else None) (Z.eqb reset 1) body)
   | _ => None
   end.
 Fixpoint outcomes_of_sx (l : list sx) : option (list outcome) :=
@@ -71,7 +72,7 @@ Definition sa_of_sx (x : sx) (script : list outcome) : option (sa RP) :=
          SxZ dpdat; SxZ rekat; SxZ delat; SxZ dpdcfg; SxL pend] =>
       match dgram_of_sx lr, dgram_of_sx rd with
       | Some lr', Some rd' =>
-          Some (mk_sa RP (mk_rinner st (Z.eqb k 1) script) (Z.eqb ini 1) myspi peerspi myid peerid lr' rd' rtat rtn
+          Some (mk_sa RP (mk_rinner st (Z.eqb k 1) peerspi script) (Z.eqb ini 1) myspi myid peerid lr' rd' rtat rtn
                       dpdat rekat delat dpdcfg (bools_of_sx pend))
       | _, _ => None
       end
@@ -80,7 +81,7 @@ Definition sa_of_sx (x : sx) (script : list outcome) : option (sa RP) :=
 
 Definition sx_of_result (r : sa RP * option (dgram Z)) : sx :=
   let s := fst r in
-  SxL [SxZ (r_st (inner RP s)); sx_bool (r_keys (inner RP s)); SxZ (my_id RP s); SxZ (peer_id RP s);
+  SxL [SxZ (r_st (inner RP s)); sx_bool (r_keys (inner RP s)); SxZ (r_peer (inner RP s)); SxZ (my_id RP s); SxZ (peer_id RP s);
        SxZ (rt_at RP s); SxZ (rt_n RP s); SxZ (dpd_at RP s); SxZ (Z.of_nat (List.length (pending RP s)));
        sx_of_dgram (last_resp RP s); sx_of_dgram (req_data RP s); sx_of_dgram (snd r);
        SxZ (Z.of_nat (List.length (r_script (inner RP s))))].
